@@ -6,8 +6,19 @@ package main
 
 // posArgs: the positional arguments (before "--") as returned by args.Get in the --init branch.
 //@ ghost var posArgs []string scratch
+//@ ghost var initDir string scratch
+//@ ghost var initWd string scratch
 
 //@ func run
 //@   site args.Get#1 ghost posArgs := result.0
 //@   site filepathext.IsExtOnly#1 requires arg0 == posArgs[0]     -- the --init path is the first positional argument   [C19]
+// ".yml" / "dir/.yml" mean "Taskfile.yml" IN THE GIVEN DIRECTORY, and whatever was given is taken relative to
+// the working directory
+//@   site filepath.Dir#1 requires arg0 == posArgs[0]                                                            [C19]
+//@   site filepath.Dir#1 ghost initDir := result
+//@   site filepath.Ext#1 requires arg0 == posArgs[0]                                                            [C19]
+//@   site filepathext.SmartJoin#1 requires arg0 == initDir                                                      [C19]
+//@   site os.Getwd#1 ghost initWd := result.0
+//@   site filepathext.SmartJoin#2 requires arg0 == initWd                                                       [C19]
+//@   site InitTaskfile#1 requires len(posArgs) == 0 ==> arg0 == initWd                                          [C19]
 //@   site (*Vars).Set#1 requires arg1 == "CLI_ARGS" && dyn(arg2.Value) == type(string)   -- one string, not a list  [C19]
